@@ -77,10 +77,21 @@ func buildNarrowed(c *Ctx) string {
 	os.WriteFile(filepath.Join(c.Scratch, "narrow.sum"), sum, 0o644)
 	out := filepath.Join(c.Scratch, "apidrv-narrow")
 	if err := buildAPIDriver(out, modfile); err != nil {
+		if narrowBuildOptional {
+			narrowBuildError = err.Error()
+			return ""
+		}
 		Infra("narrowed copy does not build: %v", err)
 	}
 	return out
 }
+
+// When the code under test no longer compiles with the two narrowed type declarations (it names a full-width
+// constant somewhere), the copy is not a model of this code: C05 then runs its full-width legs only and says so.
+var (
+	narrowBuildOptional bool
+	narrowBuildError    string
+)
 
 func limbs(dec string) []int {
 	n, ok := new(big.Int).SetString(dec, 10)
@@ -275,9 +286,11 @@ func countsCfg(cap int, triples, export bool) string {
 
 func checkC05(c *Ctx) {
 	c.Ev.Level = "model_checking"
-	c.Ev.Rule = "Counts laws: all operand pairs (triples) at 4 and 8 bits by TLC, all integers at 32/64 bits by Apalache; the 8-bit table compared pair by pair with the width-narrowed real counts package; Scan with tiny capacities (7/63) on Trees and Bomb families; every behaviour of the saturating families replayed into the width-narrowed real code (caps 255/65535) and judged by TLC; full-width bombs scanned by the binary and judged with BigNat arithmetic (values, infinity signs, 30 '!'); boundary-structured operand vectors on the full-width counts package; distinct = distinct operand pairs / behaviours / bombs"
+	c.Ev.Rule = "Counts laws: all operand pairs (triples) at 4 and 8 bits by TLC, all integers at 32/64 bits by Apalache; the 8-bit table compared pair by pair with the width-narrowed real counts package; Scan with tiny capacities (7/63) on Trees and Bomb families; every behaviour of the saturating families replayed into the width-narrowed real code (caps 255/65535) and judged by TLC; full-width bombs scanned by the binary and judged with BigNat arithmetic (values, infinity signs, 30 '!'), JSON v2 values equal to JSON v1 values digit for digit; boundary-structured operand vectors on the full-width counts package; distinct = distinct operand pairs / behaviours / bombs"
 	env := newScanEnv(c, true, true)
+	narrowBuildOptional = true
 	narrow := buildNarrowed(c)
+	narrowBuildOptional = false
 
 	// 1. the laws of the saturating arithmetic
 	res, err := tlcrun.Run(tlcrun.Job{Module: "CountsMC", Cfg: countsCfg(15, true, false)})
@@ -310,22 +323,24 @@ func checkC05(c *Ctx) {
 		Infra("CountsMC exported %d rows", len(table))
 	}
 	// the real (narrowed) counts package against TLC's table, pair by pair
-	raw, err := callDriver(narrow, "counts", map[string]interface{}{"ops": []interface{}{}, "table": true})
-	if err != nil {
-		Infra("%v", err)
-	}
 	var cr struct {
 		Width   int     `json:"width32"`
 		Width64 int     `json:"width64"`
 		Table   [][]int `json:"table"`
 	}
-	json.Unmarshal(raw, &cr)
-	if cr.Width != 8 || cr.Width64 != 16 || len(cr.Table) != 256 {
-		Infra("narrowed copy has widths %d/%d", cr.Width, cr.Width64)
+	if narrow != "" {
+		raw, err := callDriver(narrow, "counts", map[string]interface{}{"ops": []interface{}{}, "table": true})
+		if err != nil {
+			Infra("%v", err)
+		}
+		json.Unmarshal(raw, &cr)
+		if cr.Width != 8 || cr.Width64 != 16 || len(cr.Table) != 256 {
+			Infra("narrowed copy has widths %d/%d", cr.Width, cr.Width64)
+		}
 	}
 	pairs := 0
 	var narrowBad *Violation
-	for a := 0; a < 256; a++ {
+	for a := 0; a < 256 && narrow != ""; a++ {
 		for b := 0; b < 256; b++ {
 			pairs++
 			if cr.Table[a][b] != table[a][b] {
@@ -356,6 +371,11 @@ func checkC05(c *Ctx) {
 	// as written is right on every full-width vector, the copy is not a model of this code (e.g. Plus is
 	// implemented with explicit uint32/uint64 conversions): nothing it shows is a verdict about the code.
 	narrowFaithful := true
+	if narrow == "" {
+		narrowFaithful = false
+		c.Drift("the width-narrowed copy of the code does not compile (" + tail(narrowBuildError, 3) + "): the code is no longer generic in the two counter widths; replays into the narrowed copy are skipped, the full-width legs decide")
+		c.Ev.Extra["narrowed_copy"] = "does not compile: skipped"
+	}
 	if narrowBad != nil {
 		if len(c.Vio) > nvBefore {
 			c.AddViolation(*narrowBad)
@@ -420,9 +440,12 @@ func checkC05(c *Ctx) {
 	if !narrowFaithful {
 		narrowCases, narrowB = nil, nil
 	}
-	results, err := runAPI(narrow, narrowCases, 16)
-	if err != nil {
-		Infra("narrowed API driver: %v", err)
+	var results []cases.ApiResult
+	if narrow != "" {
+		results, err = runAPI(narrow, narrowCases, 16)
+		if err != nil {
+			Infra("narrowed API driver: %v", err)
+		}
 	}
 	c.CountEval(int64(len(results)))
 	shape := 0
@@ -572,6 +595,29 @@ func checkC05(c *Ctx) {
 		if r.Exit == 124 {
 			c.AddViolation(Violation{Predicate: "bomb_not_finished_in_120s", Spec: "Scan!C05_LinearSteps", Kind: "bigscan",
 				Input: map[string]interface{}{"case": r.Case}, Observed: map[string]interface{}{"timeout": true}})
+		}
+		// "as the capacity in JSON": JSON v2 carries the number JSON v1 carries (which BigJudge compares with
+		// min(true value, capacity)), digit for digit, for every metric
+		if r.Exit == 0 && r.JSON != nil {
+			var v2 map[string]struct {
+				Value json.Number `json:"value"`
+			}
+			dec := json.NewDecoder(strings.NewReader(r.JSONv2))
+			dec.UseNumber()
+			var diff []string
+			if err := dec.Decode(&v2); err != nil {
+				diff = append(diff, "json_v2_unreadable")
+			} else {
+				for _, it := range outItems {
+					if string(r.JSON[it.Field]) != v2[it.Sym].Value.String() {
+						diff = append(diff, "json_v2_value_differs_from_v1:"+it.Field)
+					}
+				}
+			}
+			if len(diff) > 0 {
+				c.AddViolation(Violation{Predicate: strings.Join(diff, ","), Spec: "Output (JSON v2 value = JSON v1 value) / BigJudge", Kind: "bigscan",
+					Input: map[string]interface{}{"case": r.Case}, Observed: map[string]interface{}{"v2": tail(r.JSONv2, 12)}})
+			}
 		}
 	}
 	for _, r := range hi {
@@ -826,6 +872,22 @@ func replayBigScan(c *Ctx, raw json.RawMessage) bool {
 			}
 		}
 		return r.Exit == 124 || trees != len(r.G.Trees) || r.Prog["trees"] != int64(len(r.G.Trees))
+	}
+	if strings.HasPrefix(rp.Predicate, "json_v2_") {
+		var v2 map[string]struct {
+			Value json.Number `json:"value"`
+		}
+		dec := json.NewDecoder(strings.NewReader(r.JSONv2))
+		dec.UseNumber()
+		if r.Exit != 0 || r.JSON == nil || dec.Decode(&v2) != nil {
+			return true
+		}
+		for _, it := range outItems {
+			if string(r.JSON[it.Field]) != v2[it.Sym].Value.String() {
+				return true
+			}
+		}
+		return false
 	}
 	v := runBigJudge(sub, []map[string]interface{}{bigJudgeCase(r)})[rp.Input.Case.ID]
 	return v.Crashed || len(v.Wrong) > 0 || len(v.Marks) > 0
